@@ -620,7 +620,8 @@ def rebase(snapshot, ghost_before, current):
         if not occ: continue
         if any((i_ + 1 < len(run) and str(run[i_ + 1]) in ('(', '::')) or (i_ > 0 and str(run[i_ - 1]) == '::') for run, i_ in occ): continue
         ghost_before = [[Tok(y + '_vxg') if (str(t) == y and not (i_ > 0 and str(run[i_ - 1]) == '.')) else t for i_, t in enumerate(run)] for run in ghost_before]
-    if ren: ghost_before = [[Tok(ren[str(t)] if (str(t) in ren and not (i_ > 0 and str(run[i_ - 1]) == '.')) else str(t)) for i_, t in enumerate(run)] for run in ghost_before]
+    # (a ghost identifier in call position `x (` is a spec fn that happens to share the local's name: not renamed)
+    if ren: ghost_before = [[Tok(ren[str(t)] if (str(t) in ren and not (i_ > 0 and str(run[i_ - 1]) == '.') and not (i_ + 1 < len(run) and str(run[i_ + 1]) == '(')) else str(t)) for i_, t in enumerate(run)] for run in ghost_before]
     # a name that was renamed in one scope only (e.g. the index of one of two loops that both use `i`): rename the ghost text
     # from the first renamed occurrence to the end of the block enclosing the last one
     sa_ = strs(snapshot)
